@@ -123,6 +123,8 @@ def run(pid, tier, seed):
     v = vlib.Verdict(pid)
     # M: design check, one small scenario per configuration
     mcs = [vlib.mc_or_die("MC_Pg", cfg, workers=4, timeout=900, expect_actions=[]) for cfg in MC_CFGS]
+    if tier == "thorough":
+        mcs.append(vlib.mc_or_die("MC_Pg", "MC_Pg_big.cfg", workers=4, timeout=2400, expect_actions=[]))
     for m in mcs:
         if m["violated"]:
             log(m["tail"])
@@ -142,7 +144,7 @@ def run(pid, tier, seed):
         if not r["violated"] or (want and r["violated"] != want):
             raise vlib.ToolError("vacuity: %s should violate %s, got %s" % (cfg, want or "a reachability invariant", r["violated"]))
     # V: implementation traces under enumerated / random schedules
-    batches = [(1, seed)] if tier != "thorough" else [(3, seed * 1000 + i) for i in range(5)]
+    batches = [(1, seed)] if tier != "thorough" else [(2, seed * 1000 + i) for i in range(6)]
     tot = {"runs": 0, "events": 0, "nontrivial": 0, "strict": 0, "div": 0, "rej": 0, "tlc_states": 0, "bad": 0}
     samples = []
     devs = {}
@@ -203,7 +205,8 @@ def run(pid, tier, seed):
         "mc_actions_covered_union": len([a for a, c in cov_union.items() if c > 0]),
         "bounds": "M: 3 actors, 2 scopes x 2 groups, 3-4 threads x <= 2 calls, five scenarios (exit vs join with duplicates "
                   "and a repeated join; monitor that unregisters and exits; scope/world monitors; two keys with a racing "
-                  "leave; demonitor racing with the first monitor + an already stopped actor); V: same sizes",
+                  "leave; demonitor racing with the first monitor + an already stopped actor; thorough adds a 4-thread "
+                  "scenario with two exiting actors); V: same sizes",
         "exhaustive": False,
     }
     vlib.write_evidence(pid, tier, seed, cov, ASSUME, time.time() - t0, len(v.violations))
